@@ -298,7 +298,7 @@ S(id="G.ctx", props=["C14", "C12"], spec="parse.spec.c", harness="h_build_start_
 
 # sets still being brought up: not part of any tier until they are green on the unchanged tree (run with --sets <id>)
 for _s in SETS:
-    if _s["id"] in ("TOK.vec",):
+    if _s["id"] in ():
         _s["disabled"] = "work in progress"
 S(id="T.anode_reset", props=["C13", "C14"], spec="parse.spec.c", harness="h_parse_init", mode="B", dfcc=True,
   replace=["sit_init/sit_init_c", "set_init/set_init_c", "core_symb_vect_init/core_symb_vect_init_c"], unwind_all=5,
